@@ -258,7 +258,17 @@ func init() {
 						model.Print{E: model.Binary{Op: "/", L: model.Lit{V: model.Float(-2.0)}, R: model.Lit{V: model.Float(0.0)}}},
 						model.Print{E: model.Binary{Op: "/", L: model.Var{Name: "fzero"}, R: model.Binary{Op: "-", L: model.Var{Name: "fzero"}, R: model.Var{Name: "fzero"}}}},
 						model.If{Conds: []model.Expr{model.Binary{Op: ">", L: model.Binary{Op: "/", L: model.Lit{V: model.Float(3.0)}, R: model.Var{Name: "fzero"}}, R: model.Lit{V: model.Float(1.0)}}}, Bodies: [][]model.Stmt{{model.Text{S: "unbounded"}}}},
-					}[c.Rng.Intn(4)]
+						// two results of append on one array: each holds its own last element
+						model.If{Conds: []model.Expr{model.Lit{V: model.Bool(true)}}, Bodies: [][]model.Stmt{{
+							model.Assign{Name: "base9", E: intArr(1, 2, 3)},
+							model.Assign{Name: "nums9", E: model.Call{X: model.Var{Name: "base9"}, Name: "append", Args: []model.Expr{model.Lit{V: model.Int(4)}}}},
+							model.Assign{Name: "names9", E: model.Call{X: model.Var{Name: "base9"}, Name: "append", Args: []model.Expr{model.StrLit{S: "x"}}}},
+							model.Each{Var: "n9", Arr: model.Var{Name: "nums9"}, Body: []model.Stmt{model.Print{E: model.Binary{Op: "+", L: model.Var{Name: "n9"}, R: model.Lit{V: model.Int(1)}}}}},
+							model.Print{E: model.Index{X: model.Var{Name: "names9"}, I: model.Lit{V: model.Int(3)}}}}}},
+						// arguments that are not looked at: the ellipsis of a truncate that has nothing to cut
+						model.Print{E: model.Call{X: model.Var{Name: "short9"}, Name: "truncate", Args: []model.Expr{model.Lit{V: model.Int(40)}, model.Var{Name: "none9"}}}},
+						model.Print{E: model.Call{X: model.StrLit{S: "abc"}, Name: "truncate", Args: []model.Expr{model.Lit{V: model.Int(3)}, model.Lit{V: model.Int(5)}}}},
+					}[c.Rng.Intn(7)]
 					prog = placeStmt(c.Rng, prog, near, 3)
 				}
 				if i%5 != 0 {
@@ -270,6 +280,8 @@ func init() {
 				}
 				data["zero"] = model.Int(0)
 				data["fzero"] = model.Float(0)
+				data["short9"] = model.Str("short title")
+				data["none9"] = model.Nil
 				exp := expectRun(prog, data)
 				if exp.Unspecified {
 					return
